@@ -134,15 +134,17 @@ package node
 //@   assert@call(Query,3): $arg1.Height == (old(req.Height) == 0 ? bheight(ctrler.lastBlockCtx) : old(req.Height)) && $arg1.Data == old(req.Data)   [C19]
 
 // ---- genesis (C03): the chain id the node verifies signatures against, and persists for restarts, is the one
-// the consensus engine hands over
+// the consensus engine hands over. Genesis stakes (C02/C12/C11): each gets a ledger key of its own (the consensus
+// engine refuses a genesis that lists a validator twice; nothing in InitChain writes to the request).
 //@ func (ctrler *RigoApp) InitChain(req)
 //@   requires ctrler != nil && ctrler.rootConfig != nil && ctrler.metaDB != nil && ctrler.govCtrler != nil && ctrler.acctCtrler != nil && ctrler.stakeCtrler != nil
 //@   modifies everything
 //@   assert@store(Config.ChainID,0): $value == req.ChainId                                                     [C03]
 //@   assert@call(PutChainID,0): $arg1 == req.ChainId                                                           [C03,C07]
-//@   assumes forall j, k :: 0 <= j && j < k && k < len(req.Validators) ==> pubkeybytes(req.Validators[j].PubKey.Sum) != pubkeybytes(req.Validators[k].PubKey.Sum)
+//@   loop 0: assumes forall j :: 0 <= j && j < len(req.Validators) ==> validx(pubkeybytes(req.Validators[j].PubKey.Sum)) == j
 //@   loop 0: invariant len(initStakes) == len(req.Validators)
 //@   loop 0: invariant forall j :: 0 <= j && j <= rangeindex ==> initStakes[j] != nil && len(initStakes[j].Stakes) == 1 && initStakes[j].Stakes[0] != nil
+//@   loop 0: invariant forall j :: 0 <= j && j <= rangeindex ==> content(initStakes[j].Stakes[0].TxHash) == sha256of(pubkeybytes(req.Validators[j].PubKey.Sum))
 //@   loop 0: invariant forall j, k :: 0 <= j && j < k && k <= rangeindex ==> content(initStakes[j].Stakes[0].TxHash) != content(initStakes[k].Stakes[0].TxHash)   [C02,C12,C11]
 
 // ---- block end (C10): the validator updates computed by the staking controller are handed to the consensus
